@@ -15,11 +15,13 @@ RULE = (
     "whatshap.core.PedigreeDPTable; oracle = enumeration of all 2^R side vectors x Viterbi over transmissions. Checked: cost == "
     "optimum, re-costed returned witness == cost, unflagged allele == strict arg-min over admissible assignments of its column, "
     "'Mendelian conflict' raised iff infeasible, shapes. Thorough adds a bounded-exhaustive block (all multisets of <=3 reads "
-    "over <=3 columns, alleles {0,1,-}, weights {1,2}, all-het and fixed-GL distrust). Non-trivial: >=2 columns, a column with "
+    "over <=3 columns, alleles {0,1,-}, weights {1,2}, all-het and fixed-GL distrust). Lane 'big': instances beyond brute force "
+    "(12-45 reads, up to 60 columns, <=13 active reads per column): the returned witness must re-cost to the reported cost and be "
+    "1-optimal (no single read flip, no single-column transmission change is cheaper). Non-trivial: >=2 columns, a column with "
     ">=2 active reads, and optimum > 0 or a tie flag present; distinct by hash of the canonical instance."
 )
 EXHAUSTIVE = {"quick": False, "thorough": False}
-REQUIRED_COUNTERS = ["solved", "cost_eq_optimum", "witness_recosted", "alleles_checked", "infeasible_agree"]
+REQUIRED_COUNTERS = ["solved", "cost_eq_optimum", "witness_recosted", "alleles_checked", "infeasible_agree", "big_instances", "big_flip_neighbours_checked"]
 ASSUMPTIONS = [
     "weights/GL costs are integers and sums stay far below 2^32 (unsigned int cost arithmetic of the solver)",
     "R <= 12 (quick) / 16 (thorough) reads per brute-forced instance; larger instances only get the witness re-cost",
@@ -32,8 +34,83 @@ PER_CASE = 25
 
 def lanes(tier):
     if tier == "quick":
-        return [("plain", "plain", 1200), ("san", "san", 160)]
-    return [("plain", "plain", 12000), ("san", "san", 1600), ("exh", "plain", 400)]
+        return [("plain", "plain", 1200), ("san", "san", 160), ("big", "plain", 64)]
+    return [("plain", "plain", 12000), ("san", "san", 1600), ("exh", "plain", 400), ("big", "plain", 1200), ("bigsan", "san", 120)]
+
+
+def gen_big(rng):
+    """Instances beyond brute-force reach: 12-45 reads, up to 60 columns, at most 13 active reads per column."""
+    kind = rng.choice(["single", "single", "unrelated2", "trio"])
+    while True:
+        inst = mec.random_instance(rng, kind, max_reads=rng.randint(12, 45), max_cols=rng.choice([12, 20, 30, 45, 60]))
+        n = len(inst["positions"])
+        if n < 6 or len(inst["reads"]) < 10:
+            continue
+        # thin out reads until no column has more than 13 active reads
+        while True:
+            worst = max(range(n), key=lambda c: len(mec.active_reads(inst, c)))
+            act = mec.active_reads(inst, worst)
+            if len(act) <= 13:
+                break
+            inst["reads"].pop(rng.choice(act))
+        if len(inst["reads"]) >= 10:
+            return inst
+
+
+def check_big(inst, counters):
+    """Necessary conditions for optimality on instances that cannot be brute-forced: witness re-costs to the reported
+    cost; no single-read flip and no single-column transmission change of the witness is cheaper; the generator's hidden
+    assignment is not cheaper."""
+    from whatshap.core import PedigreeDPTable
+
+    rs, ped, order = build_real(inst)
+    sinst = dict(inst)
+    sinst["reads"] = [inst["reads"][k] for k in order]
+    positions = inst["positions"] if inst.get("explicit_positions", True) else None
+    try:
+        table = PedigreeDPTable(rs, inst["recomb"], ped, inst["distrust"], positions)
+    except RuntimeError as e:
+        if "Mendelian conflict" in str(e):
+            tables, actives = mec.column_tables(sinst)
+            if all(int(t.min()) < mec.INF for t in tables):
+                raise Viol("feasibility", "solver raised 'Mendelian conflict' on a feasible big instance")
+            counters["infeasible_agree"] = counters.get("infeasible_agree", 0) + 1
+            return False
+        raise Viol("solver-error", "PedigreeDPTable raised %r" % str(e))
+    cost = table.get_optimal_cost()
+    superreads, tvec = table.get_super_reads()
+    part = table.get_optimal_partitioning()
+    tables, actives = mec.column_tables(sinst)
+    counters["big_instances"] = counters.get("big_instances", 0) + 1
+    rc = mec.recost(sinst, part, tvec, tables, actives)
+    if rc != cost:
+        raise Viol("witness", "big instance: witness re-costs to %s, reported %d" % (rc, cost))
+    nT = 4 ** len(inst["triples"])
+    R = len(part)
+    for i in range(R):
+        p2 = list(part)
+        p2[i] = 1 - p2[i]
+        c2 = mec.recost(sinst, p2, tvec, tables, actives)
+        counters["big_flip_neighbours_checked"] = counters.get("big_flip_neighbours_checked", 0) + 1
+        if c2 < cost:
+            raise Viol("cost", "big instance (%d reads, %d columns): flipping read %d of the returned partition costs %d < reported optimum %d" % (R, len(tvec), i, c2, cost))
+    if nT > 1:
+        for c in range(len(tvec)):
+            for t in range(nT):
+                if t == tvec[c]:
+                    continue
+                t2 = list(tvec)
+                t2[c] = t
+                c2 = mec.recost(sinst, part, t2, tables, actives)
+                if c2 < cost:
+                    raise Viol("cost", "big instance: changing the transmission value of column %d to %d costs %d < reported optimum %d" % (c, t, c2, cost))
+        counters["big_transmission_neighbours_checked"] = counters.get("big_transmission_neighbours_checked", 0) + len(tvec) * (nT - 1)
+    # a uniformly flipped partition has the same cost for founders-only instances (haplotype symmetry)
+    if not inst["triples"]:
+        c3 = mec.recost(sinst, [1 - x for x in part], tvec, tables, actives)
+        if c3 != cost:
+            raise Viol("cost", "big instance: complementary partition costs %d, partition %d" % (c3, cost))
+    return True
 
 
 class Viol(Exception):
@@ -292,7 +369,18 @@ def run_case(idx, rng, tier, lane):
     sample = None
     case = None
     try:
-        if lane == "exh":
+        if lane in ("big", "bigsan"):
+            for _ in range(6 if lane == "big" else 3):
+                inst = gen_big(rng)
+                try:
+                    ok = check_big(inst, counters)
+                except Viol as e:
+                    e.inst = inst
+                    raise
+                if ok:
+                    keys.add(_key(inst))
+                sample = {"kind": inst["kind"], "n_reads": len(inst["reads"]), "n_columns": len(inst["positions"]), "distrust": inst["distrust"]}
+        elif lane == "exh":
             n = [x for l, f, x in lanes(tier) if l == "exh"][0]
             half = n // 2
             if idx < half:
